@@ -8,7 +8,7 @@ PROP = {
                      "SwimVerif.Proofs.C03Queue", "SwimVerif.Proofs.C03Pop", "SwimVerif.Proofs.C03Mon",
                      "SwimVerif.Proofs.C03Rel", "SwimVerif.Proofs.C03Inv", "SwimVerif.Proofs.C03Write",
                      "SwimVerif.Proofs.C03Trace", "SwimVerif.Proofs.C03Bridge", "SwimVerif.Proofs.C03Strings",
-                     "SwimVerif.Proofs.C03Lines", "SwimVerif.Proofs.C03Indep"],
+                     "SwimVerif.Proofs.C03Lines", "SwimVerif.Proofs.C03Indep", "SwimVerif.Proofs.C03Fails"],
     "engines": [
         e2e_engine("C03"),
         {"name": "ml", "crate": "core", "bin": "sv-ml", "machine": "ml",
@@ -33,8 +33,8 @@ PROP = {
                   "the model by differential execution. Concurrent syncs: literal independence of the frames is "
                   "false (witness, same on the real lane); independence up to the schedule is proved.",
     "level_note": "The interval statement over whole traces is a theorem for the map lane model (bound 2^64 on the "
-                  "trace length: beyond it the wrapping epochs of the unbounded model alias; the full statement stays "
-                  "visible as C03_snapshot_consistent_open). "
+                  "trace length: beyond it the wrapping epochs of the unbounded model alias; the full statement "
+                  "C03_snapshot_consistent is refuted for the unbounded model by C03_snapshot_consistent_fails). "
                   "The runtime half (implicit link on the first targeted response; MapSynced draining the uplink "
                   "queue) is covered by the wt engine under C04, and the composition by the end-to-end rig where "
                   "present.",
